@@ -13,6 +13,7 @@ from . import c05
 from . import conf_common as cc
 from ..gen import cuts, family, rewrites, texts
 from ..mon import outcome
+from ..ref import refparse
 
 ID = "C06"
 LEVEL = "exploration"
@@ -41,7 +42,8 @@ ASSUMPTIONS = [
 ]
 FLOORS = {"quick": {"compared": 4000, "compared_ok": 1200,
                     "compared_reject": 800, "unbalanced": 400,
-                    "define_texts": 500},
+                    "define_texts": 500, "repeated_include": 2000,
+                    "repeated_include_ok": 300, "open_ended_fragment": 500},
           "thorough": {"compared": 300000, "compared_ok": 100000,
                        "compared_reject": 100000, "unbalanced": 40000,
                        "define_texts": 40000}}
@@ -94,6 +96,76 @@ def compare(ctx, schema, corpus, text, case_extra, rng, dirpath, tag=""):
                     list(o_cut[:2]) if o_cut[0] == "ok" else list(o_cut[:6]),
                     detail="files=%r" % (layout.texts(),),
                     vsig="inc|%s|%s|%s" % (corpus, o_in[0], o_cut[0]))
+    # the same fragment included twice (not recursively): equals the text
+    # with those lines written out twice
+    lines = refparse.split_lines(text)
+    ranges = cuts.balanced_ranges(lines, 60)
+    if ranges and rng.random() < 0.5:
+        i, j = rng.choice(ranges)
+        doubled = lines[:j] + lines[i:j] + lines[j:]
+        lay = cuts.Layout()
+        fp, place = lay.new_path(rng)
+        lay.files[fp] = list(lines[i:j])
+        lay.files["b/main.conf"] = lines[:i] + [("inc", fp, ""),
+                                                ("inc", fp, "  ")] + \
+            lines[j:]
+        if rng.random() < 0.4:
+            # diamond: two different fragments both include the common one
+            l2, _ = lay.new_path(rng)
+            r2, _ = lay.new_path(rng)
+            lay.files[l2] = [("inc", fp, "")]
+            lay.files[r2] = [("inc", fp, "\t")]
+            lay.files["b/main.conf"] = lines[:i] + [("inc", l2, ""),
+                                                    ("inc", r2, "")] + \
+                lines[j:]
+        res.evaluations += 1
+        shutil.rmtree(dirpath, ignore_errors=True)
+        main = lay.write(dirpath)
+        dtext = "".join(l + "\n" for l in doubled)
+        o_a = outcome.load_text(schema, dtext)
+        o_b = load_path(schema, main)
+        res.count("repeated_include")
+        res.count("repeated_include_" + o_a[0])
+        res.sig("%s|repeated|%s|%s" % (corpus, place, o_a[0]))
+        if key(o_a) != key(o_b):
+            res.violate("repeated-include-differs-from-inlined",
+                        dict(case_extra, text=dtext, files=lay.texts(),
+                             corpus=corpus),
+                        list(o_a[:2]) if o_a[0] == "ok" else list(o_a[:6]),
+                        list(o_b[:2]) if o_b[0] == "ok" else list(o_b[:6]),
+                        detail="files=%r" % (lay.texts(),),
+                        vsig="rep|%s|%s|%s" % (corpus, o_a[0], o_b[0]))
+    # a fragment that opens a section and never closes it, in a text that
+    # does not close it either: must be rejected (the inlined text is)
+    if o_in[0] == "ok":
+        d = cuts.depths(lines)
+        closers = [n for n in range(len(lines))
+                   if cuts.classify(lines[n]) == "close" and d[n + 1] == 0]
+        if closers:
+            n = closers[-1]
+            openers = [m for m in range(n) if d[m] == 0 and
+                       cuts.classify(lines[m]) == "open"]
+            if openers:
+                m = openers[-1]
+                body = lines[m:n]            # opener .. last inner line
+                lay = cuts.Layout()
+                fp, place = lay.new_path(rng)
+                lay.files[fp] = list(body)
+                lay.files["b/main.conf"] = lines[:m] + [("inc", fp, "")] + \
+                    lines[n + 1:]
+                res.evaluations += 1
+                shutil.rmtree(dirpath, ignore_errors=True)
+                main = lay.write(dirpath)
+                o = load_path(schema, main)
+                res.count("open_ended_fragment")
+                res.sig("%s|open-ended|%s" % (corpus, place))
+                if o[0] == "ok":
+                    res.violate("fragment-leaving-section-open-accepted",
+                                dict(case_extra, files=lay.texts(),
+                                     corpus=corpus, unbalanced=True,
+                                     text=text),
+                                "rejected", "accepted",
+                                detail="files=%r" % (lay.texts(),))
     # negative family
     if o_in[0] == "ok":
         bad = cuts.cut_text(rng, text, unbalanced=True)
